@@ -24,7 +24,7 @@ for m in $MODS; do
     fi
   fi
 done
-H=$V/harness
+H=${VERIF_HARNESS_DIR:-$V/harness} # development aid: build a copy of the harness that is being edited
 if [ -n "${VERIF_HARNESS_EXCLUDE:-}" ]; then
   # development aid: build from a snapshot of the harness without some files (others are editing them)
   rm -rf "$S/harness"; mkdir -p "$S/harness"
